@@ -15,8 +15,11 @@ import (
 	"io"
 	"net"
 	"net/textproto"
+	"strconv"
 	"strings"
 	"time"
+
+	"github.com/m7913d/go-ntlm/ntlm"
 )
 
 type DialOpts struct {
@@ -29,6 +32,13 @@ type DialOpts struct {
 	Timeout   time.Duration
 	Method    string // default RDG_OUT_DATA
 	NoUpgrade bool   // do not send the websocket upgrade headers
+	NTLM      *NTLMCreds // run the NTLM negotiate/challenge round trip first, on the same connection
+}
+
+// NTLMCreds are used for the two-step NTLM exchange in front of a request.
+type NTLMCreds struct {
+	User, Pass string
+	Scheme     string // "NTLM" (default) or "Negotiate"
 }
 
 type HTTPReply struct {
@@ -113,6 +123,15 @@ func DialWS(o DialOpts) (*WS, *HTTPReply, error) {
 	for _, h := range o.Headers {
 		fmt.Fprintf(&sb, "%s: %s\r\n", h[0], h[1])
 	}
+	br := bufio.NewReaderSize(c, 1<<16)
+	if o.NTLM != nil {
+		authz, rep, err := NTLMPrelude(c, br, o, o.Method)
+		if err != nil || authz == "" {
+			c.Close()
+			return nil, rep, err
+		}
+		fmt.Fprintf(&sb, "Authorization: %s\r\n", authz)
+	}
 	sb.WriteString("\r\n")
 	to := o.Timeout
 	if to == 0 {
@@ -123,7 +142,6 @@ func DialWS(o DialOpts) (*WS, *HTTPReply, error) {
 		c.Close()
 		return nil, nil, err
 	}
-	br := bufio.NewReaderSize(c, 1<<16)
 	rep, err := readReply(br)
 	c.SetDeadline(time.Time{})
 	if err != nil {
@@ -320,6 +338,15 @@ func sendRequest(o DialOpts, method string, chunked bool) (net.Conn, *bufio.Read
 	if chunked {
 		sb.WriteString("Transfer-Encoding: chunked\r\n")
 	}
+	br := bufio.NewReaderSize(c, 1<<16)
+	if o.NTLM != nil {
+		authz, rep, err := NTLMPrelude(c, br, o, method)
+		if err != nil || authz == "" {
+			c.Close()
+			return nil, nil, rep, err
+		}
+		fmt.Fprintf(&sb, "Authorization: %s\r\n", authz)
+	}
 	sb.WriteString("\r\n")
 	to := o.Timeout
 	if to == 0 {
@@ -330,7 +357,6 @@ func sendRequest(o DialOpts, method string, chunked bool) (net.Conn, *bufio.Read
 		c.Close()
 		return nil, nil, nil, err
 	}
-	br := bufio.NewReaderSize(c, 1<<16)
 	rep, err := readReply(br)
 	c.SetDeadline(time.Time{})
 	if err != nil {
@@ -460,3 +486,84 @@ func WaitEOF(c net.Conn, br *bufio.Reader, timeout time.Duration) string {
 func (w *WS) WaitEOF(timeout time.Duration) string   { return WaitEOF(w.C, w.br, timeout) }
 func (l *LegacyOut) WaitEOF(t time.Duration) string   { return WaitEOF(l.C, l.br, t) }
 func (l *LegacyIn) WaitEOF(t time.Duration) string    { return WaitEOF(l.C, l.br, t) }
+
+
+// ReadBody consumes the body of a reply that carries Content-Length.
+func ReadBody(br *bufio.Reader, rep *HTTPReply) ([]byte, error) {
+	n, _ := strconv.Atoi(rep.Headers.Get("Content-Length"))
+	if n <= 0 {
+		return nil, nil
+	}
+	b := make([]byte, n)
+	_, err := io.ReadFull(br, b)
+	return b, err
+}
+
+// NTLMPrelude sends the negotiate message on c, reads the 401 challenge and
+// returns the Authorization header value carrying the authenticate message.
+// An empty value with a reply means the server did not challenge.
+func NTLMPrelude(c net.Conn, br *bufio.Reader, o DialOpts, method string) (string, *HTTPReply, error) {
+	scheme := o.NTLM.Scheme
+	if scheme == "" {
+		scheme = "NTLM"
+	}
+	cl := &ntlm.V2ClientSession{}
+	cl.SetUserInfo(o.NTLM.User, o.NTLM.Pass, "")
+	neg, err := cl.GenerateNegotiateMessage()
+	if err != nil {
+		return "", nil, err
+	}
+	path := o.Path
+	if path == "" {
+		path = "/remoteDesktopGateway/"
+	}
+	var sb strings.Builder
+	fmt.Fprintf(&sb, "%s %s HTTP/1.1\r\nHost: %s\r\nContent-Length: 0\r\n", method, path, o.Addr)
+	if o.ConnID != "" {
+		fmt.Fprintf(&sb, "Rdg-Connection-Id: %s\r\n", o.ConnID)
+	}
+	for _, h := range o.Headers {
+		fmt.Fprintf(&sb, "%s: %s\r\n", h[0], h[1])
+	}
+	fmt.Fprintf(&sb, "Authorization: %s %s\r\n\r\n", scheme, base64.StdEncoding.EncodeToString(neg.Bytes()))
+	c.SetDeadline(time.Now().Add(10 * time.Second))
+	defer c.SetDeadline(time.Time{})
+	if _, err := c.Write([]byte(sb.String())); err != nil {
+		return "", nil, err
+	}
+	rep, err := readReply(br)
+	if err != nil {
+		return "", rep, err
+	}
+	if _, err := ReadBody(br, rep); err != nil {
+		return "", rep, err
+	}
+	if rep.Status != 401 {
+		return "", rep, nil
+	}
+	var chal string
+	for _, v := range rep.Headers.Values("Www-Authenticate") {
+		if strings.HasPrefix(v, scheme+" ") {
+			chal = strings.TrimPrefix(v, scheme+" ")
+		}
+	}
+	if chal == "" {
+		return "", rep, nil
+	}
+	cb, err := base64.StdEncoding.DecodeString(chal)
+	if err != nil {
+		return "", rep, err
+	}
+	cm, err := ntlm.ParseChallengeMessage(cb)
+	if err != nil {
+		return "", rep, err
+	}
+	if err := cl.ProcessChallengeMessage(cm); err != nil {
+		return "", rep, err
+	}
+	am, err := cl.GenerateAuthenticateMessage()
+	if err != nil {
+		return "", rep, err
+	}
+	return scheme + " " + base64.StdEncoding.EncodeToString(am.Bytes()), rep, nil
+}
